@@ -377,23 +377,25 @@ def main(tier, seed):
     from vlib.pysym.selfcheck import selfcheck
     rep.extra["pysym_selfcheck_comparisons"] = selfcheck(seed)
     jobs = []
-    widths = (1, 3) if tier == "quick" else (1, 2, 3, 4)
+    widths = (1, 3) if tier == "quick" else (1, 2, 3, 4, 8)
     for w in widths:
-        for st in (2, 3, 4):
+        for st in (2, 3, 4) if tier == "quick" else (2, 3, 4, 5, 6):
             for rl in (True, False):
                 init = (5 * st + w) % (1 << w)
                 jobs.append({"id": f"ff-w{w}-s{st}-{'rl' if rl else 'rst'}", "what": "ff", "width": w, "stages": st, "init": init, "reset_less": rl})
     for (w, st, init) in ((3, 2, -3), (2, 3, 1), (4, 2, -8)):
         jobs.append({"id": f"ff-signed-w{w}-s{st}", "what": "ff", "width": w, "stages": st, "init": init, "reset_less": st == 3, "signed": True, "owidth": w + 2})
     jobs.append({"id": "ff-wide-w3-s2", "what": "ff", "width": 3, "stages": 2, "init": 5, "reset_less": True, "signed": False, "owidth": 5})
-    for st in (2, 3) if tier == "quick" else (2, 3, 4):
+    for st in (2, 3) if tier == "quick" else (2, 3, 4, 5):
         for edge in ("pos", "neg"):
             jobs.append({"id": f"async-s{st}-{edge}", "what": "async", "kind": "AsyncFFSynchronizer", "stages": st, "edge": edge})
-            jobs.append({"id": f"async-s{st}-{edge}-between", "what": "async", "kind": "AsyncFFSynchronizer", "stages": st, "edge": edge, "between": True})
+            if st <= 4:       # (forking on the input levels between the edges: 5 stages exceed the path budget)
+                jobs.append({"id": f"async-s{st}-{edge}-between", "what": "async", "kind": "AsyncFFSynchronizer", "stages": st, "edge": edge, "between": True})
         jobs.append({"id": f"rstsync-s{st}", "what": "async", "kind": "ResetSynchronizer", "stages": st, "edge": "pos"})
-        jobs.append({"id": f"rstsync-s{st}-between", "what": "async", "kind": "ResetSynchronizer", "stages": st, "edge": "pos", "between": True})
-    for st in (2, 3):
-        jobs.append({"id": f"pulse-s{st}", "what": "pulse", "stages": st, "K": 10 if tier == "quick" else 16})
+        if st <= 4:
+            jobs.append({"id": f"rstsync-s{st}-between", "what": "async", "kind": "ResetSynchronizer", "stages": st, "edge": "pos", "between": True})
+    for st in (2, 3) if tier == "quick" else (2, 3, 4, 5):
+        jobs.append({"id": f"pulse-s{st}", "what": "pulse", "stages": st, "K": 10 if tier == "quick" else (20 if st <= 3 else 16)})
     results, stats = run.run_jobs(job_fn, jobs)
     rep.add(results, stats)
     # mutation twin: latency claimed one edge too short must be refuted
@@ -420,9 +422,9 @@ def main(tier, seed):
     rep.functions = ["amaranth.lib.cdc.FFSynchronizer.elaborate", "amaranth.lib.cdc.AsyncFFSynchronizer.elaborate", "amaranth.lib.cdc.ResetSynchronizer.elaborate",
                      "amaranth.lib.cdc.PulseSynchronizer.elaborate", "amaranth.sim._pyrtl (compiled processes incl. the asynchronous-reset process)",
                      "amaranth.sim.pysim.PySimEngine.step_design (derived clock and reset through combinational aliases)"]
-    rep.bounds = {"FFSynchronizer": f"widths {list(widths)}, stages 2..4, reset_less both ways: one inductive step + {'stages+3'} edges from reset",
-                  "AsyncFFSynchronizer/ResetSynchronizer": "stages 2..3(4), both async edges, symbolic input level before each of stages+4 clock edges",
-                  "PulseSynchronizer": "stages 2..3, symbolic schedule of 10 (quick) / 16 (thorough) steps + drain of stages+3 output edges",
+    rep.bounds = {"FFSynchronizer": f"widths {list(widths)}, stages 2..{4 if tier == 'quick' else 6}, reset_less both ways: one inductive step + {'stages+3'} edges from reset",
+                  "AsyncFFSynchronizer/ResetSynchronizer": "stages 2..3 (quick) / 2..5 (thorough), both async edges, symbolic input level before each of stages+4 clock edges",
+                  "PulseSynchronizer": "stages 2..3 (quick) / 2..5 (thorough), symbolic schedule of 10 (quick) / 16..20 (thorough) steps + drain of stages+3 output edges",
                   "outside": "longer schedules; wider data"}
     rep.stubs = ["HSignalState", "compile recorder", "if-converting interpreter", "vlib.ts unrolling by substitution"]
     rep.assumptions = ["PulseSynchronizer: an output-clock edge falls between consecutive input pulses; resets de-asserted",
